@@ -227,6 +227,16 @@ fn gen_c06(rng: &mut Rng, thorough: bool) -> Case {
         }
     }
     c.script = gen::gen_flow_script(rng, &c, &o, 3);
+    // Fault R without a fatal error: an isolated mailbox that was dropped before init is the
+    // target of direct `process_event` calls, whose send error is ignored by design: nothing was
+    // sent, so no loss may be reported.
+    if rng.pct(20) {
+        let kinds = c.nodes[0].on.len();
+        c.nodes.push(NodeSpec { name: format!("gone{}", c.nodes.len()), parent: None, cap: 1, registered: true, dead: true, outs: vec![], reqs: vec![], init: vec![], on: vec![vec![]; kinds], panic_at: None });
+        let t = (c.nodes.len() - 1) as u16;
+        let pos = rng.usize(c.script.len() + 1);
+        c.script.insert(pos, Cmd::ProcessEvent { target: t, kind: 0 });
+    }
     c.profile = "stall".into();
     c
 }
